@@ -12,6 +12,11 @@ What is extracted (all with file:line so that a reader can check it against the 
                                     is (an `if` around) np.random.seed(...)
                      emissionLoop   every loop of initialize_emissions() that calls .generate_emissions:
                                     first statement of the body is (an `if` around) np.random.seed(...)
+                   each with the source text of the seed ARGUMENT; `seeded` is false as well when that argument can be
+                   None (np.random.seed(None) re-seeds from OS entropy): no argument, the constant None, `d.get(k)`
+                   without a non-None default, a conditional / `or` with such a branch
+  seedSeriesReuse  the test under which gen_seed_timeseries() re-uses a saved daily seed series: length == simulated
+                   days, first day in series, last day in series
                      infrastructure every `Infrastructure(...)` construction in initialize_infrastructure():
                                     an earlier statement of the same block is (an `if` around) np.random.seed
   sharedMutations  every module-level / class-level binding (or mutable default argument) that a
@@ -387,13 +392,55 @@ def is_np_seed_call(m, node):
     return False
 
 
-def stmt_seeds(m, st):
-    """statement is np.random.seed(...) or an `if` whose body's first statement is"""
+def stmt_seed_call(m, st):
+    """the np.random.seed(...) call if the statement is one, or an `if` whose body's first statement is; else None"""
     if isinstance(st, ast.Expr) and is_np_seed_call(m, st.value):
-        return True
+        return st.value
     if isinstance(st, ast.If) and st.body and not st.orelse:
-        return stmt_seeds(m, st.body[0])
-    return False
+        return stmt_seed_call(m, st.body[0])
+    return None
+
+
+def stmt_seeds(m, st):
+    return stmt_seed_call(m, st) is not None
+
+
+def seed_arg(call):
+    """(source text of the seed argument, may_be_None): np.random.seed(None) / seed() re-seed from OS entropy.
+    May be None: no argument, the constant None, `<x>.get(k)` without a default or with default None, a conditional
+    expression / `or` with such a branch.  A subscript, a name, an arithmetic expression or a call of something else
+    is taken as a value."""
+    if call is None:
+        return "", True
+    if not call.args and not call.keywords:
+        return "<no argument>", True
+    a = call.args[0] if call.args else call.keywords[0].value
+
+    def maybe_none(e):
+        if isinstance(e, ast.Constant):
+            return e.value is None
+        if isinstance(e, ast.Call) and isinstance(e.func, ast.Attribute) and e.func.attr in ("get", "pop", "setdefault"):
+            if e.func.attr == "get" or e.func.attr == "pop":
+                dflt = e.args[1] if len(e.args) > 1 else next((k.value for k in e.keywords if k.arg == "default"), None)
+                if e.func.attr == "pop" and dflt is None and len(e.args) < 2:
+                    return False   # pop without default raises
+                return dflt is None or maybe_none(dflt)
+            return len(e.args) < 2 or maybe_none(e.args[1])
+        if isinstance(e, ast.IfExp):
+            return maybe_none(e.body) or maybe_none(e.orelse)
+        if isinstance(e, ast.BoolOp):
+            return any(maybe_none(v) for v in e.values)
+        if isinstance(e, ast.NamedExpr):
+            return maybe_none(e.value)
+        return False
+
+    return ast.unparse(a), maybe_none(a)
+
+
+def seed_point(mod, line, func, kind, call):
+    arg, none = seed_arg(call)
+    return {"file": mod.rel, "line": line, "func": func, "kind": kind, "seededFirst": call is not None,
+            "arg": arg, "argMayBeNone": bool(call is not None and none), "seeded": bool(call is not None and not none)}
 
 
 class FuncScan(ast.NodeVisitor):
@@ -693,8 +740,8 @@ class Extractor:
         if len(day) != 1:
             raise ExtractError(f"pattern missing: exactly one while-loop (the day loop) in LdarSim.run_simulation, found {len(day)}")
         lp = day[0]
-        self.seed_points.append({"file": mod.rel, "line": lp.lineno, "func": "LdarSim.run_simulation",
-                                 "kind": "dayLoop", "seeded": bool(lp.body) and stmt_seeds(mod, lp.body[0])})
+        self.seed_points.append(seed_point(mod, lp.lineno, "LdarSim.run_simulation", "dayLoop",
+                                           stmt_seed_call(mod, lp.body[0]) if lp.body else None))
         # 2. emission generation loops
         mod = self.mods.get("initialization.initialize_emissions")
         fn = self.find_func(mod, "initialize_emissions") if mod else None
@@ -706,8 +753,8 @@ class Extractor:
                      and c.func.attr == "generate_emissions"]
             if calls:
                 n += 1
-                self.seed_points.append({"file": mod.rel, "line": lp.lineno, "func": "initialize_emissions",
-                                         "kind": "emissionLoop", "seeded": bool(lp.body) and stmt_seeds(mod, lp.body[0])})
+                self.seed_points.append(seed_point(mod, lp.lineno, "initialize_emissions", "emissionLoop",
+                                                   stmt_seed_call(mod, lp.body[0]) if lp.body else None))
         if n == 0:
             raise ExtractError("pattern missing: a loop calling .generate_emissions in initialize_emissions()")
         # 3. infrastructure construction
@@ -731,15 +778,71 @@ class Extractor:
                 own = [c for c in self._stmt_calls(st) if chain(c.func) == ["Infrastructure"]]
                 if own:
                     n += 1
-                    self.seed_points.append({"file": mod.rel, "line": st.lineno, "func": "initialize_infrastructure",
-                                             "kind": "infrastructure",
-                                             "seeded": any(stmt_seeds(mod, p) for p in body[:i])})
+                    calls = [stmt_seed_call(mod, p) for p in body[:i]]
+                    calls = [c for c in calls if c is not None]
+                    self.seed_points.append(seed_point(mod, st.lineno, "initialize_infrastructure", "infrastructure",
+                                                       calls[-1] if calls else None))
                 for b in blocks(st):
                     scan(b)
 
         scan(fn.body)
         if n == 0:
             raise ExtractError("pattern missing: Infrastructure(...) construction in initialize_infrastructure()")
+
+    def seed_series_reuse(self):
+        """the test under which gen_seed_timeseries() re-uses a saved daily seed series: it must compare the length
+        with the number of simulated days AND test that the first and the last simulated day are keys of the saved
+        series (series are written as contiguous day ranges, so the three together mean: exactly this period)"""
+        mod = self.mods.get("initialization.preseed")
+        fn = self.find_func(mod, "gen_seed_timeseries") if mod else None
+        if fn is None:
+            raise ExtractError("pattern missing: initialization.preseed.gen_seed_timeseries")
+        params = [a.arg for a in fn.args.posonlyargs + fn.args.args]
+        if len(params) < 2:
+            raise ExtractError("pattern missing: gen_seed_timeseries(sim_start_date, sim_end_date, ...)")
+        start, end = params[0], params[1]
+        # the guard of the `return <saved series>` that sits inside the `if os.path.isfile(...)` block
+        found = None
+        for node in ast.walk(fn):
+            if isinstance(node, ast.If) and any(isinstance(b, ast.Return) and b.value is not None for b in node.body):
+                loads = [c for c in ast.walk(node.test)]
+                if any(isinstance(c, ast.Call) and chain(c.func) == ["len"] for c in loads) or \
+                        any(isinstance(c, ast.Compare) and any(isinstance(o, ast.In) for o in c.ops) for c in loads):
+                    found = node
+                    break
+        if found is None:
+            raise ExtractError("pattern missing: guarded `return <saved series>` in gen_seed_timeseries()")
+        ret = next(b for b in found.body if isinstance(b, ast.Return))
+        series = ast.unparse(ret.value)
+        test = found.test
+        # names bound to the number of simulated days before the test
+        day_count_names = set()
+        for node in ast.walk(fn):
+            if isinstance(node, (ast.Assign, ast.AnnAssign)) and node.value is not None:
+                src = ast.unparse(node.value)
+                if start in src and end in src and "days" in src:
+                    tg = node.targets[0] if isinstance(node, ast.Assign) else node.target
+                    if isinstance(tg, ast.Name):
+                        day_count_names.add(tg.id)
+        conj = test.values if isinstance(test, ast.BoolOp) and isinstance(test.op, ast.And) else [test]
+        chk_len = chk_start = chk_end = False
+        for c in conj:
+            if not isinstance(c, ast.Compare) or len(c.ops) != 1:
+                continue
+            l, r, op = c.left, c.comparators[0], c.ops[0]
+            if isinstance(op, ast.Eq):
+                sides = [ast.unparse(l), ast.unparse(r)]
+                has_len = any(x == f"len({series})" for x in sides)
+                other = [x for x in sides if x != f"len({series})"]
+                if has_len and other and ((start in other[0] and end in other[0] and "days" in other[0]) or other[0] in day_count_names):
+                    chk_len = True
+            if isinstance(op, ast.In) and ast.unparse(r) == series:
+                if ast.unparse(l) == start:
+                    chk_start = True
+                if ast.unparse(l) == end:
+                    chk_end = True
+        return {"file": mod.rel, "line": found.lineno, "func": "gen_seed_timeseries", "test": ast.unparse(test),
+                "checksLength": chk_len, "checksStart": chk_start, "checksEnd": chk_end}
 
     def _stmt_calls(self, st):
         """calls in the statement's own expressions (not in nested statement blocks)"""
@@ -768,6 +871,7 @@ class Extractor:
         self.copy_hooks = MO.copy_hooks(self, G)
         self.copy_wiring = MO.copy_wiring(self, G)
         self.nondet = MO.nondet_sites(self, G)
+        self.seed_reuse = self.seed_series_reuse()
 
         def dedupe(rows, keys):
             seen, out = set(), []
@@ -802,6 +906,7 @@ class Extractor:
             "copyHooks": self.copy_hooks,
             "copyWiring": self.copy_wiring,
             "nondetSites": self.nondet,
+            "seedSeriesReuse": self.seed_reuse,
         }
 
 
@@ -837,7 +942,8 @@ def render(t):
     L.append("")
     L.append("def seedPoints : List SeedPoint := [")
     L.append(",\n".join(
-        f"  {{ file := {lstr(r['file'])}, line := {r['line']}, func := {lstr(r['func'])}, kind := .{r['kind']}, seeded := {'true' if r['seeded'] else 'false'} }}"
+        f"  {{ file := {lstr(r['file'])}, line := {r['line']}, func := {lstr(r['func'])}, kind := .{r['kind']}, "
+        f"seeded := {'true' if r['seeded'] else 'false'}, arg := {lstr(r['arg'])}, argMayBeNone := {'true' if r['argMayBeNone'] else 'false'} }}"
         for r in t["seedPoints"]))
     L.append("]")
     L.append("")
@@ -865,6 +971,12 @@ def render(t):
     L.append("/-- simulate(): the parameter `infrastructure` is used nowhere but as the argument of that deepcopy -/")
     L.append(f"def simulateUsesOnlyCopy : Bool := {'true' if w['usesOnlyCopy'] else 'false'}")
     L.append("")
+    u = t["seedSeriesReuse"]
+    L.append(f"/-- {u['file']}:{u['line']} gen_seed_timeseries re-uses the saved daily seed series iff: {u['test']} -/")
+    L.append(f"def seedSeriesReuse : SeedReuse := {{ file := {lstr(u['file'])}, line := {u['line']}, "
+             f"checksLength := {'true' if u['checksLength'] else 'false'}, checksStart := {'true' if u['checksStart'] else 'false'}, "
+             f"checksEnd := {'true' if u['checksEnd'] else 'false'} }}")
+    L.append("")
     L.append("def nondetSites : List NondetSite := [")
     L.append(",\n".join(
         f"  {{ file := {lstr(r['file'])}, line := {r['line']}, func := {lstr(r['func'])}, kind := .{r['kind']}, call := {lstr(r['call'])} }}"
@@ -878,7 +990,7 @@ def render(t):
     L.append("/-- the effect summary of the code base, as one record -/")
     L.append("def tables : Tables where")
     for fld in ("rngSites", "seedPoints", "sharedMutations", "prologueRngSites", "copyHooks", "simulateDeepCopies",
-                "simulateUsesOnlyCopy", "nondetSites"):
+                "simulateUsesOnlyCopy", "nondetSites", "seedSeriesReuse"):
         L.append(f"  {fld} := {fld}")
     L.append("")
     L.append("end LdarModel.Generated.Effects")
